@@ -49,6 +49,10 @@ def cases(tier, rng):
         flw = nets.random_d8_raster(rng, nr, nc, p_nodata=rng.choice([0, 0.1]))
         if nets.pits(nets.d8_decode(flw, nr, nc)):
             yield {"k": 1100, "args": [[t]], "call": {"api": "geo", "nr": nr, "nc": nc, "flw": flw, "seed": rng.randrange(10**9), "ml": None}, "group": "geographic-m"}
+            if t % 2 == 0:
+                # NEXTXY networks whose links skip cells, on projected grids: a step is as long as the distance between the two
+                # cell centres (round-6 seed: far links measured as one cell)
+                yield {"k": 1100, "args": [[100000 + t]], "call": {"api": "geo", "far": True, "nr": nr, "nc": nc, "flw": flw, "seed": rng.randrange(10**9), "ml": None}, "group": "projected-far-links-m"}
     nras = 600 if tier == "quick" else 4000
     for t in range(nras):
         nr, nc = rng.randint(1, 5), rng.randint(2, 5)
@@ -85,6 +89,36 @@ def _geo(call):
     from pyflwdir import gis_utils as g
     rng = random.Random(call["seed"])
     nr, nc = call["nr"], call["nc"]
+    if call.get("far"):
+        import math
+        n = nr * nc
+        # every cell links to an arbitrary cell with a lower number (or is a pit): loop-free, links of any length
+        ds = [(i if (i == 0 or rng.random() < 0.2) else rng.randrange(i)) for i in range(n)]
+        nx = np.array([(-9 if ds[i] == i else ds[i] % nc + 1) for i in range(n)], dtype=np.int32).reshape(nr, nc)
+        ny = np.array([(-9 if ds[i] == i else ds[i] // nc + 1) for i in range(n)], dtype=np.int32).reshape(nr, nc)
+        xres, yres_ = rng.choice([(30.0, -30.0), (100.0, -50.0), (2.0, 3.0), (0.5, -0.25)])
+        trp = Affine(xres, 0.0, rng.choice([0.0, 400000.0]), 0.0, yres_, rng.choice([0.0, 5200000.0]))
+        flwp = pyflwdir.from_array(np.stack([nx, ny]), ftype="nextxy", transform=trp, latlon=False)
+        badp = []
+        for start in rng.sample(range(n), min(4, n)):
+            for ml in (None, rng.uniform(1, 6) * abs(xres) * 3):
+                paths, dists = flwp.path(idxs=np.array([start]), max_length=ml, unit="m")
+                exp, d, cur = [start], 0.0, start
+                while ds[cur] != cur:
+                    j = ds[cur]
+                    step = math.hypot((j // nc - cur // nc) * yres_, (j % nc - cur % nc) * xres)
+                    if ml is not None and d + step > ml:
+                        break
+                    d += step
+                    cur = j
+                    exp.append(cur)
+                p = [int(x) for x in paths[0]]
+                if p != exp or abs(float(dists[0]) - d) > 1e-9 * max(1.0, d):
+                    badp.append(f"projected path over far links from {start} max_length={ml}: {p} {float(dists[0])} expected {exp} {d}")
+                s_idx, s_d = flwp.snap(idxs=np.array([start]), max_length=ml, unit="m")
+                if int(s_idx[0]) != exp[-1] or abs(float(s_d[0]) - d) > 1e-6 * max(1.0, d):      # snap reports binary32 lengths
+                    badp.append(f"projected snap over far links from {start}: {int(s_idx[0])} {float(s_d[0])} expected {exp[-1]} {d}")
+        return [[0]] if not badp else [[1], badp[:3]]
     ds = nets.d8_decode(call["flw"], nr, nc)
     yres = rng.choice([-1.0, -0.5, 0.25, 1.0])
     north = rng.uniform(-60, 60)
@@ -187,6 +221,16 @@ def impl(case):
         v = v_
         if one(1) != single:
             return [[-3], [f"the result for the second of three start cells {one(1)} differs from the single-start call {single}"]]
+    # snap is the end of the path for the same arguments, also for limits that binary32 cannot hold and that lie just below /
+    # above a reachable length (round-6 seed: one of the two rounded the limit)
+    if ml is not None and ml > 0:
+        for lim in (ml - 1e-7, ml + 1e-7, ml * 1.0000001):
+            kw2 = dict(kw, max_length=lim)
+            sp, vp = call_impl(flw.path, timeout=5, **kw2, **where([start]))
+            ss, vs = call_impl(flw.snap, timeout=5, **kw2, **where([start]))
+            if sp != ss or (sp == "ok" and (int(vp[0][0][-1]) != int(vs[0][0]) or float(vp[1][0]) != float(vs[1][0]))):
+                return [[-3], [f"snap and path disagree for max_length={lim!r}: path ends at {int(vp[0][0][-1]) if sp == 'ok' else sp} "
+                               f"after {float(vp[1][0]) if sp == 'ok' else ''}, snap gives {int(vs[0][0]) if ss == 'ok' else ss} {float(vs[1][0]) if ss == 'ok' else ''}"]]
     if api == "ras-path":
         return fin(st, v[0][0], v[1][0])
     return [[0], idx_list(v[0][:1]), [int(float(v[1][0]) * unit)]]
